@@ -278,14 +278,15 @@ class World:
             raise ValueError(op)
 
     def canonical_state(self):
-        # the state of a retort = the key sets of whatever dict-valued "cache" attributes it holds (found by name, so the
-        # abstraction follows a renamed or added cache; identity of the state only steers deduplication, never the verdict)
+        # the state of a retort = the key sets of every plain dict it holds (caches are found by type, not by name, so the
+        # abstraction follows a renamed or added cache; dicts that never change only add a constant; the identity of the state
+        # steers deduplication and the vacuity guard, never the verdict)
         parts = []
         for r in [*self.retorts, *self.conv]:
             keys = []
-            for attr, val in sorted(vars(r).items()):
-                if "cache" in attr and isinstance(val, dict):
-                    keys += sorted(f"{attr}:{_typed_repr(k)[:300]}" for k in val)
+            for n, (attr, val) in enumerate(sorted(vars(r).items())):
+                if type(val) is dict:
+                    keys += sorted(f"{n}:{_typed_repr(k)[:300]}" for k in val)
             parts.append(keys)
         return digest(repr(parts))
 
